@@ -19,13 +19,14 @@ then `nself` generations of selfing act on the distribution over individuals
 (child = two independent gametes of the SAME parent individual), then one gamete
 is drawn and doubled (DH line, genotype 2*z, value 2*z.u).  nself = inf is the
 limit distribution of the selfing chain (iterated until the heterozygous mass is
-< 1e-15).  Variance / between-trait covariance are those of the enumerated
+< 1e-14).  Variance / between-trait covariance are those of the enumerated
 distribution; the genic counterpart is the sum over loci of the per-locus
 (co)variances of the same distribution (linkage ignored).
 
 Only this file belongs to the ring; it runs the real code from $PYBROPS_REPO.
 """
 import math
+import time
 import itertools
 import statistics
 
@@ -103,7 +104,7 @@ class Enum:
         (H,) of one gamete of a random individual after nself selfings"""
         if nself == math.inf:
             for _ in range(400):
-                if I.sum() - numpy.trace(I) < 1e-15:
+                if I.sum() - numpy.trace(I) < 1e-14:
                     break
                 I = self.self_step(I)
             d = numpy.diag(I).copy()
@@ -775,23 +776,42 @@ def sample_tuples(rng, scheme, n, k):
 
 def oracle_cost(p, nself, ntuples):
     per = (1 << (4 * p)) * (50 if nself == "inf" else (1 + int(nself)))
-    return ntuples * (per / 4e9 + 0.0006 * (1 << p) / 16.0 + 0.0004)
+    return ntuples * (per / 1.5e9 + 0.0006 * (1 << p) / 16.0 + 0.0004)
 
 
 MEMS = [None, 1, 2, 3, 4, 5, 7, 1000]
 
 
-def gen_matrix_cases(rng, tier, family, schemes, budget_s):
+def gen_matrix_cases(rng, tier, family, schemes, budget_s, wall_s=None):
     """yields cases for one family; the data sets sweep p, chromosome layout,
-    n, t, nself and styles; every data set is emitted once per clause"""
+    n, t, nself and styles; every data set is emitted once per clause.
+    budget_s bounds the estimated oracle cost, wall_s is a wall-clock safety
+    net (it only limits how many data sets are explored)"""
     nself_all = [0, 1, 2, "inf", 3, 5]
     spent = 0.0
-    rounds = 3 if tier == "quick" else 40
+    rounds = 5 if tier == "quick" else 100
     serial = 0
+    t_start = time.time()
     for rd in range(rounds):
         for scheme in schemes:
             npar = NPAR[scheme]
-            for p in ([1, 2, 3, 4, 5, 6] if tier == "thorough" or rd == 0 else [2, 3, 4]):
+            if wall_s is not None and time.time() - t_start > wall_s:
+                return
+            # a larger data set (beyond the oracle's reach) for the structural clauses only
+            pl = rng.randint(8, 24 if tier == "quick" else 60)
+            nl = 2 if scheme == "4way" else rng.randint(2, 3)
+            tl_ = rng.choice([1, 2])
+            chrgrp, genpos = gen_map(rng, pl, rng.choice([1, 2, 3]), rng.choice(["plain", "wide", "dup", "unsorted"]))
+            big = dict(kind="matrix", family=family, scheme=scheme, chrgrp=chrgrp, genpos=genpos,
+                       hap=gen_haps(rng, scheme, nl, pl, "random"), u=gen_u(rng, pl, tl_, rng.choice(["plain", "real"])),
+                       nself=rng.choice(nself_all), mem=rng.choice([None, 1024]), nmating=1, nprogeny=10)
+            lens = [chrgrp.count(c) for c in sorted(set(chrgrp))]
+            yield dict(big, clause="chunk", mems=sorted(set([3, 5, 8, 1000] + lens + [max(1, lens[0] - 1), lens[0] + 1])))
+            permb = list(range(nl))
+            permb = permb[1:] + permb[:1]
+            yield dict(big, clause="perm", perm=permb)
+            yield dict(big, clause="symmetry")
+            for p in ([1, 2, 3, 4, 5, 6] if tier == "thorough" or rd == 0 else ([2, 3, 4, 5] if rd == 3 else [2, 3, 4])):
                 serial += 1
                 nchr = 1 if p == 1 else rng.choice([1, 2, 2] + ([3] if tier == "thorough" and p >= 3 else []))
                 nmax = {"2way": 5, "3way": 4, "4way": 4 if p <= 4 else 3, "dihybrid": 4}[scheme]
@@ -806,8 +826,8 @@ def gen_matrix_cases(rng, tier, family, schemes, budget_s):
                             labels=rng.random() > 0.15)
                 ntup = n ** npar
                 k = ntup
-                while k > 6 and oracle_cost(p, nself, k) > (1.5 if tier == "quick" else 6.0):
-                    k = max(6, k // 2)
+                while k > 4 and oracle_cost(p, nself, k) > (1.5 if tier == "quick" else 6.0):
+                    k = max(4, k // 2)
                 tl = sample_tuples(rng, scheme, n, k) if k < ntup else None
                 cost = oracle_cost(p, nself, k)
                 if spent + cost > budget_s:
@@ -845,9 +865,8 @@ def gen_matrix_cases(rng, tier, family, schemes, budget_s):
                 yield ident
                 if (family, scheme) in FACTORIES and (rd + p) % 2 == 0:
                     c = dict(base, clause="factory")
-                    c["tuples"] = tl if tl is not None else None
-                    if c["tuples"] is None:
-                        del c["tuples"]
+                    if tl is not None:
+                        c["tuples"] = tl
                     yield c
                     if family == "vmat.genic":
                         yield dict(base, clause="factory-nomem", tuples=[list(x) for x in all_tuples(scheme, n)[:4]])
@@ -858,7 +877,7 @@ FACTORIES = {("vmat.genetic", "2way"), ("vmat.genetic", "3way"), ("vmat.genetic"
 
 
 def gen_uc_cases(rng, tier):
-    rounds = 2 if tier == "quick" else 25
+    rounds = 4 if tier == "quick" else 80
     for rd in range(rounds):
         for scheme in ("2way", "3way", "4way", "dihybrid"):
             npar = NPAR[scheme]
@@ -954,7 +973,8 @@ RULE_MATRIX = ("seeded random data sets (VERIF_SEED): p=1..6 markers on 1-2 (tho
 def _matrix_unit(ctx, family, schemes, quick_s, thorough_s):
     ctx.rule = RULE_MATRIX
     budget = quick_s if ctx.tier == "quick" else thorough_s
-    _drive(ctx, gen_matrix_cases(ctx.rng, ctx.tier, family, schemes, budget), _branch_matrix)
+    wall = 30.0 if ctx.tier == "quick" else 400.0
+    _drive(ctx, gen_matrix_cases(ctx.rng, ctx.tier, family, schemes, budget, wall), _branch_matrix)
 
 
 VM = "pybrops/model/vmat/"
@@ -976,24 +996,24 @@ BOUND = ("bounded: p<=6 markers on <=2 chromosomes (thorough <=3), <=5 parents (
       targets=[VM + "DenseTwoWayDHAdditiveGeneticVarianceMatrix.py:DenseTwoWayDHAdditiveGeneticVarianceMatrix.from_algmod",
                VM + "DenseThreeWayDHAdditiveGeneticVarianceMatrix.py:DenseThreeWayDHAdditiveGeneticVarianceMatrix.from_algmod"])
 def u_ring_g23(ctx):
-    _matrix_unit(ctx, "vmat.genetic", ("2way", "3way"), 16.0, 220.0)
+    _matrix_unit(ctx, "vmat.genetic", ("2way", "3way"), 20.0, 600.0)
 
 
 @unit(P, N_G4D, "R", bounded=True, note=BOUND,
       targets=[VM + "DenseFourWayDHAdditiveGeneticVarianceMatrix.py:DenseFourWayDHAdditiveGeneticVarianceMatrix.from_algmod",
                VM + "DenseDihybridDHAdditiveGeneticVarianceMatrix.py:DenseDihybridDHAdditiveGeneticVarianceMatrix.from_algmod"])
 def u_ring_g4d(ctx):
-    _matrix_unit(ctx, "vmat.genetic", ("4way", "dihybrid"), 16.0, 220.0)
+    _matrix_unit(ctx, "vmat.genetic", ("4way", "dihybrid"), 20.0, 600.0)
 
 
 @unit(P, N_GENIC, "R", bounded=True, note=BOUND)
 def u_ring_genic(ctx):
-    _matrix_unit(ctx, "vmat.genic", ("2way", "3way", "4way", "dihybrid"), 16.0, 220.0)
+    _matrix_unit(ctx, "vmat.genic", ("2way", "3way", "4way", "dihybrid"), 16.0, 600.0)
 
 
 @unit(P, N_PCV, "R", bounded=True, note=BOUND)
 def u_ring_pcv(ctx):
-    _matrix_unit(ctx, "pcvmat.genetic", ("2way", "3way", "4way", "dihybrid"), 16.0, 220.0)
+    _matrix_unit(ctx, "pcvmat.genetic", ("2way", "3way", "4way", "dihybrid"), 16.0, 600.0)
 
 
 @unit(P, N_PCVN, "R", bounded=True, note=BOUND + "; classes not among the anchored files (genic counterparts of pcvmat)")
